@@ -4,6 +4,11 @@
  *   tgt <blob>                 state: the complete new file B
  *   case tmark=<+|0 per chunk> limit=<n> hdr=<hex>[;<hex>...] body=<blob> cuts=<spec> [xflags=<flags> xfile=<blob> xerrby=<n>]
  *        fill=<byte>           byte value missing extents are pre-filled with (default 0xAA)
+ *        appcb=1               the application's own header and write callbacks are registered (zck_dl_set_header_cb, ..._write_cb,
+ *                              with their data pointers) as zck.h documents; they accept everything and record what they were given -
+ *                              the library's callbacks must behave as without them and hand every byte on exactly once
+ *        cbshape=<0|1|2>       how (size, nmemb) of the fwrite-style callbacks are chosen for n bytes: (1, n) as libcurl does,
+ *                              (n, 1), or (k, n/k) for the smallest k > 1 dividing n
  * cuts: "-" whole body in one invocation | all1 | k<n> n-byte pieces | c<a>,<b>,.. explicit cut offsets |
  *       sweep1[:lo:hi] every single cut | sweep2[:lo:hi] every pair of cuts (first cut in [lo,hi))
  * flow per partition (fresh target file and contexts each time): target = B's header + chunks marked '+' + fill
@@ -18,12 +23,30 @@
 
 typedef struct {
     blob *tgt; char *tmark; int limit; blob hdr[8]; int nhdr; blob body; char *cuts;
-    char *xflags; blob xfile; int has_x; long xerrby; int fill;
+    char *xflags; blob xfile; int has_x; long xerrby; int fill; int appcb, cbshape;
     long mask[16][2]; int nmask;   /* file byte ranges (inclusive) the expectation does not cover */
 } fcase;
 typedef struct { fcase *cases; int n; } fctx;
 
 typedef struct { int nb, bad; long badend; char flags[64]; blob file; char req[256]; int ok; } outcome;
+
+/* the application's callbacks: accept everything, keep a running digest-like sum and the byte count of what was handed on */
+typedef struct { unsigned long n, sum; } app_seen;
+static size_t app_cb(void *p, size_t l, size_t c, void *d) {
+    app_seen *a = d;
+    for(size_t i = 0; i < l * c; i++) a->sum = a->sum * 31 + ((unsigned char *)p)[i];
+    a->n += l * c;
+    return l * c;
+}
+static size_t app_hcb(void *p, size_t l, size_t c, void *d) { return app_cb(p, l, c, d); }
+
+static void shape(int cbshape, size_t n, size_t *l, size_t *c) {
+    *l = 1; *c = n;
+    if(cbshape == 1) { *l = n; *c = 1; }
+    else if(cbshape == 2) {
+        for(size_t k = 2; k <= n && k < 64; k++) if(n % k == 0) { *l = k; *c = n / k; break; }
+    }
+}
 
 static outcome run_partition(fcase *k, const blob *t0, const long *cuts, int ncuts) {
     outcome o;
@@ -42,10 +65,18 @@ static outcome run_partition(fcase *k, const blob *t0, const long *cuts, int ncu
     zckDL *dl = zck_dl_init(zck);
     if(!dl) die("feed: dl init");
     zck_dl_set_range(dl, range);
+    app_seen ah = {0, 0}, aw = {0, 0}, eh = {0, 0}, ew = {0, 0};
+    if(k->appcb) {
+        if(!zck_dl_set_header_cb(dl, (zck_wcb)app_hcb) || !zck_dl_set_header_data(dl, &ah) ||
+           !zck_dl_set_write_cb(dl, (zck_wcb)app_cb) || !zck_dl_set_write_data(dl, &aw)) die("feed: cannot register callbacks");
+    }
     for(int i = 0; i < k->nhdr; i++) {
         /* the transport hands out header lines in its own buffer, not NUL terminated */
         blob h = blob_dup(k->hdr[i].p, k->hdr[i].n);
-        zck_header_cb((char *)h.p, 1, h.n, dl);
+        size_t l, c;
+        shape(k->cbshape, h.n, &l, &c);
+        app_cb(h.p, 1, h.n, &eh);
+        zck_header_cb((char *)h.p, l, c, dl);
         blob_free(&h);
     }
     long pos = 0;
@@ -54,12 +85,18 @@ static outcome run_partition(fcase *k, const blob *t0, const long *cuts, int ncu
         if(end <= pos) continue;
         /* exact-size heap copy: an over-read of the piece is visible to the sanitizer */
         blob piece = blob_dup(k->body.p + pos, end - pos);
-        size_t r = zck_write_chunk_cb(piece.p, 1, piece.n, dl);
-        blob_free(&piece);
+        size_t l, c;
+        shape(k->cbshape, piece.n, &l, &c);
+        size_t r = zck_write_chunk_cb(piece.p, l, c, dl);
         o.nb++;
-        if(r != (size_t)(end - pos)) { o.bad = o.nb - 1; o.badend = end; break; }
+        if(r != (size_t)(end - pos)) { o.bad = o.nb - 1; o.badend = end; blob_free(&piece); break; }
+        app_cb(piece.p, 1, piece.n, &ew);
+        blob_free(&piece);
         pos = end;
     }
+    /* every accepted byte must have reached the application's callbacks, once and in order (an invocation the library refused
+     * may or may not have been handed on); reported as an invocation failure so that every oracle sees it */
+    if(k->appcb && o.bad < 0 && (ah.n != eh.n || ah.sum != eh.sum || aw.n != ew.n || aw.sum != ew.sum)) { o.bad = 9999; o.badend = -2; }
     int n = 0;
     zck_clear_error(zck);   /* a recoverable error left by a refused response must not hide the markings */
     for(zckChunk *ch = zck_get_first_chunk(zck); ch && n < 62; ch = zck_get_next_chunk(ch)) {
@@ -240,6 +277,8 @@ int cmd_feed(FILE *job, FILE *out) {
             free(h);
             k.body = blob_arg(kv(t, n, "body", "-"));
             k.cuts = strdup(kv(t, n, "cuts", "-"));
+            k.appcb = (int)kvi(t, n, "appcb", 0);
+            k.cbshape = (int)kvi(t, n, "cbshape", 0);
             const char *xf = kv(t, n, "xflags", NULL);
             if(xf) {
                 k.has_x = 1;
